@@ -154,8 +154,16 @@ def engage_exact(rep, rule, fname, fn, n, preexisting, mod, args_of, head_field_
         st.mem[(a.id, 0, 8)] = PtrVal(head.id, Lin(head_field_off))
         old = [a]
     it = SymInterp(mod, [zone.id])
-    rets = it.run_function(fn, st, objs)
     cfg = 'cells=%d%s%s' % (n, ',list-not-empty' if preexisting else '', label)
+    try:
+        rets = it.run_function(fn, st, objs)
+    except AnalysisBroken as e:
+        if 'not decided by the configuration' not in str(e):
+            raise
+        rep.inst(rule, fname, 'exact-carve:' + cfg, False, where_of(fn),
+                 'the carving loop does not stop after %d steps of elemsz bytes over a zone of %d*elemsz bytes: %s'
+                 % (n, n, e))
+        return
     ok, detail = bool(rets), None if rets else 'no feasible return'
     for (T, rv) in rets:
         chain, err = read_chain(T, None, zone.id, head.id)
@@ -985,6 +993,8 @@ def heap_layout_rules(rep, repo, tier):
         rep.inst(rule[fn], fn, clause, not bad, where_of(f), detail,
                  fact={'layouts': len(set(x[0] for x in lst)), 'return_states': len(lst)})
     rep.extra['heap'] = {'layouts_interpreted': res.layouts, 'return_states_checked': res.states}
+    if res.layouts < 40:
+        raise AnalysisBroken('only %d heap layouts interpreted' % res.layouts)
 
 
 def run(rep, repo, tier):
@@ -1041,6 +1051,6 @@ def run(rep, repo, tier):
     rep.floor('R-HDR', 4)
     rep.floor('R-HEAPLOCK', 9)
     rep.floor('R-BRKLIMIT', 2)
-    rep.floor('R-HEAP-MALLOC', 80)
-    rep.floor('R-HEAP-FREE', 150)
-    rep.floor('R-HEAP-REALLOC', 200)
+    rep.floor('R-HEAP-MALLOC', 8)
+    rep.floor('R-HEAP-FREE', 8)
+    rep.floor('R-HEAP-REALLOC', 12)
